@@ -228,6 +228,9 @@ impl<'a> Client<'a> {
         f: &dyn Fn(&mut Cand, &Cfg) -> Ret,
     ) {
         let cfg = self.cfg.clone();
+        if std::env::var("SIM_DUMP").is_ok() {
+            eprintln!("store op {op}: actual {:?}; fired so far {}", actual, self.env.fired.load(SeqCst));
+        }
         let mut all: Vec<(Cand, Ret)> = vec![];
         for mut c in self.model.expand(forced) {
             let r = f(&mut c, &cfg);
@@ -531,6 +534,10 @@ impl<'a> Client<'a> {
                 if fail_nth.is_some() {
                     self.barrier_if_unresolved();
                 }
+                // no un-awaited merge can be running in a worker during this operation,
+                // so a fault that fires during it belongs to it
+                let quiet = self.model.unresolved() == 0;
+                let fired_base = self.env.fired.load(SeqCst);
                 self.env.reset_counter();
                 if let Some(n) = fail_nth {
                     self.env.arm(*n);
@@ -549,12 +556,11 @@ impl<'a> Client<'a> {
                 self.res.cb_counts.insert(i, n_cb);
                 actual_err = !r.is_ok();
                 let (id, class, obs, upd, fail_nth) = (*id, *class, *obs, upd.clone(), *fail_nth);
+                let fired_now = self.env.fired.load(SeqCst) > fired_base;
                 let observed_notes = self.notif.log.lock().unwrap().get(&id).cloned().unwrap_or(0);
                 self.step_model(kind, &r, &|_| false, &move |c, cfg| {
-                    let mut f = match fail_nth {
-                        Some(n) => FaultCtx::nth(n),
-                        None => FaultCtx::none(),
-                    };
+                    let _ = fail_nth;
+                    let mut f = if quiet { FaultCtx::observed(fired_now) } else { FaultCtx::none() };
                     if let Some(t) = c.tracks.get_mut(&id) {
                         match add_observation(t, class, obs, upd.as_ref(), cfg, &mut f) {
                             Ok(n) => {
@@ -595,6 +601,8 @@ impl<'a> Client<'a> {
             }
             Op::MergeOwned { dest, src, classes, remove, hist, fail_nth } => {
                 self.barrier_if_unresolved();
+                let quiet = self.model.unresolved() == 0;
+                let fired_base = self.env.fired.load(SeqCst);
                 self.env.reset_counter();
                 if let Some(n) = fail_nth {
                     self.env.arm(*n);
@@ -609,6 +617,7 @@ impl<'a> Client<'a> {
                 actual_err = !r.is_ok();
                 let (dest, src, classes, remove, hist, fail_nth) =
                     (*dest, *src, classes.clone(), *remove, *hist, *fail_nth);
+                let fired_now = self.env.fired.load(SeqCst) > fired_base;
                 self.step_model(kind, &r, &|_| true, &move |c, cfg| {
                     let Some(s) = c.tracks.get(&src).cloned() else {
                         return Ret::NotFound(src);
@@ -616,10 +625,8 @@ impl<'a> Client<'a> {
                     if dest == src {
                         return Ret::AnyErr;
                     }
-                    let mut f = match fail_nth {
-                        Some(n) => FaultCtx::nth(n),
-                        None => FaultCtx::none(),
-                    };
+                    let _ = fail_nth;
+                    let mut f = if quiet { FaultCtx::observed(fired_now) } else { FaultCtx::none() };
                     c.tracks.remove(&src);
                     let r = store_merge(c, dest, &s, &classes, hist, cfg, &mut f);
                     match r {
@@ -642,6 +649,8 @@ impl<'a> Client<'a> {
                 if fail_nth.is_some() {
                     self.barrier_if_unresolved();
                 }
+                let quiet = self.model.unresolved() == 0;
+                let fired_base = self.env.fired.load(SeqCst);
                 let (t, notes) = build_real(&self.store, &self.env, &self.notif, src, false);
                 let (mt, _) = build_model(src, &self.cfg, false);
                 for c in &mut self.model.cands {
@@ -660,11 +669,10 @@ impl<'a> Client<'a> {
                 actual_err = !r.is_ok();
                 let shard = self.model.shard_of(*dest);
                 let (dest, classes, hist, fail_nth) = (*dest, classes.clone(), *hist, *fail_nth);
+                let fired_now = self.env.fired.load(SeqCst) > fired_base;
                 self.step_model(kind, &r, &move |p| p.shard == shard, &move |c, cfg| {
-                    let mut f = match fail_nth {
-                        Some(n) => FaultCtx::nth(n),
-                        None => FaultCtx::none(),
-                    };
+                    let _ = fail_nth;
+                    let mut f = if quiet { FaultCtx::observed(fired_now) } else { FaultCtx::none() };
                     store_merge(c, dest, &mt, &classes, hist, cfg, &mut f)
                 });
             }
@@ -898,7 +906,7 @@ pub fn client_main(case: &StoreCase, prop: &str) -> ClientResult {
     let notif = Notif::default();
     let store: Store = TrackStore::new(
         SimMetric {
-            opt_calls: 0,
+            seen: Default::default(),
             env: env.clone(),
         },
         SimAttrs::new(env.clone(), case.cfg.default_status),
